@@ -148,6 +148,8 @@ TOK_TOTAL_T = TOK_TOTAL_Q + ['tok_total_parse_12', 'tok_total_parse_12_multibyte
 def _k_token(name, names_q, names_t=None, bounded=None):
     def part(tier):
         names = names_t if (tier == 'thorough' and names_t) else names_q
+        if not names:
+            return None          # thorough-only part
         def runner():
             r = p_kani.run_token(names, 1500 if tier == 'quick' else 7200)
             r['bounded'] = bounded or []
@@ -239,12 +241,15 @@ MULTI['C10'] = dict(
     search=[['parse-search', '{seed}', '{n}', 'c10']], search_n={'quick': 20000, 'thorough': 200000})
 
 
+TOK_DISPLAY = ['tok_display_pockets', 'tok_display_rank_pairs', 'tok_display_card_pair']
+
 MULTI['C17'] = dict(
-    parts=[_v('fmt', FMT_ALLOWED), _v('range', RANGE_ALLOWED)],
+    parts=[_v('fmt', FMT_ALLOWED), _v('range', RANGE_ALLOWED), _k_token('TOKEN-TEXT', [], TOK_DISPLAY)],
     assumptions=[
         'TOKEN-LIST LEVEL ONLY. Verus proves, on the real token-building prefix of Display for HandRange (rule D3: everything before `let mut res = f.write_str(..)`; 8 loops), that the token list equals canon(self.0@), a spec function of the contents alone: pockets from aces down, then for each high card its suited and then its offsuit kickers (each row scanned into maximal runs: a run is closed at the first rank that is absent or whose weight is f32-unequal to the weight at the start of the run), then the leftover single combos in fixed order',
         'hence equal contents => equal token lists, whatever the construction history (the two views it reads are functions of the contents by the contracts of C12: lemma_rank_pairs_unique / lemma_orphans_unique)',
-        'TEXT LEVEL ASSUMED: the dropped tail joins the own Display of the tokens with commas through core::fmt::Formatter; Display for HandRangeToken / RankPair / CardPair / f32 are deterministic functions of the token value (not verified; f32 0.0 and -0.0 compare equal but print differently)',
+        'TEXT LEVEL ASSUMED: the dropped tail joins the own Display of the tokens with commas through core::fmt::Formatter; Display for HandRangeToken / RankPair / CardPair / f32 are deterministic functions of the token value (f32 0.0 and -0.0 compare equal but print differently)',
+        'thorough tier only (Kani, complete over all ranks / suits / shapes, ~8 min): Display for HandRangeToken with weight 1 writes exactly the notation XX, XX+, XX-YY, XYs, XYs+, XYs-XZs (and o), XsYs that the tok_meaning_* harnesses of C05 parse back to the same value; the weight suffix (f32 Display) is not covered',
         '"no two emitted rank-pair tokens could be merged" is read off the definition of canon (a new run starts exactly where the previous one was closed because the weight differs or a rank is missing); not stated as a separate lemma',
         DERIVE, 'key-model axioms for CardPair / RankPair; f32 == / != uninterpreted (R16); callee contracts rank_pairs / orphan_card_pairs proved in unit RANGE',
     ],
